@@ -24,7 +24,7 @@ RECURSIVE ScriptFrom(_,_,_,_,_,_,_)
 ScriptFrom(j, vals, core, ws, foc, cs, ck) ==
   IF j > ScriptLen \/ core = <<>> THEN <<>>
   ELSE LET r == core[((j * 2 + ck) % Len(core)) + 1]
-           v == (j + ck) % 3
+           v == (j + ck) % MaxVals
            f == foc[ws[r].ents[1]]
            nv == PutCells(cs, vals, f[1], f[2], v)
        IN <<[rq |-> r, k |-> v, vals |-> nv, get |-> [c \in 1..(f[2] - f[1] + 1) |-> nv[f[1] + c - 1]]]>>
